@@ -2,7 +2,7 @@
 # seedsum.sh <patch> Cxx...: apply a seeded change to /repo, run the quick checks, undo it; one summary
 # line per check (violations with / without a concrete failing input).  Evidence is saved and restored.
 PATCH=$(realpath $1); shift
-cd /verif
+cd "$(dirname "$(realpath "$0")")"
 SAVE=$(mktemp -d /var/tmp/evidence-save.XXXXXX); cp -a evidence/. $SAVE/
 git -C /repo apply $PATCH || { rm -rf $SAVE; exit 2; }
 for p in "$@"; do
